@@ -16,8 +16,11 @@ package main
 // yamlBlock) and nowhere else.
 
 import (
+	"encoding/json"
 	"fmt"
+	"os"
 	"regexp"
+	"strconv"
 	"strings"
 	"unicode/utf8"
 )
@@ -37,6 +40,11 @@ type dSource struct {
 	Ifl       []bool     `json:"ifl"`
 	Delim     []string   `json:"delim"`
 	Variables []dPairs   `json:"variables"`
+	Numvars   []dNumvar  `json:"numvars"` // entries of `variables` written as bare numbers
+}
+type dNumvar struct {
+	Key string `json:"key"`
+	Val int    `json:"val"`
 }
 type dPost struct {
 	Type    string     `json:"type"`
@@ -164,7 +172,31 @@ func hclHeredocOK(s string) bool {
 	return true
 }
 
-func hclHeredoc(s string) string { return "<<EOT\n" + hclEscTemplate(s) + "EOT" }
+func hclHeredoc(s string) string {
+	// odd seeds: the indented form <<-EOT (leading blanks common to all lines are removed), used only when no line is
+	// empty or starts with a blank, so that exactly the added indentation is stripped
+	if scSeed()%2 == 1 {
+		lines := strings.Split(strings.TrimSuffix(s, "\n"), "\n")
+		ok := true
+		for _, ln := range lines {
+			if ln == "" || ln[0] == ' ' || ln[0] == '\t' {
+				ok = false
+			}
+		}
+		if ok {
+			return "<<-EOT\n      " + strings.Join(strings.Split(hclEscTemplate(strings.TrimSuffix(s, "\n")), "\n"), "\n      ") + "\n      EOT"
+		}
+	}
+	return "<<EOT\n" + hclEscTemplate(s) + "EOT"
+}
+
+func scSeed() int {
+	n, _ := strconv.Atoi(os.Getenv("VERIF_SEED"))
+	if n < 0 {
+		n = -n
+	}
+	return n
+}
 
 // hclStrL: string expression in the `hcll` style (heredoc where exact, else quoted).  Only for places where the
 // expression ends its line (attribute values, entries of multi-line objects): the closing marker must stand alone.
@@ -228,7 +260,19 @@ func renderHCL(d scDesc) string {
 			w("  delimiter = %s\n", q(s.Delim[0]))
 		}
 		if len(s.Variables) == 1 {
-			w("  variables = %s\n", obj(s.Variables[0], "  "))
+			if len(s.Numvars) == 0 {
+				w("  variables = %s\n", obj(s.Variables[0], "  "))
+			} else {
+				// the documentation's own example: port = 8090
+				w("  variables = {\n")
+				for _, p := range s.Variables[0] {
+					w("    %s = %s\n", q(p[0]), q(p[1]))
+				}
+				for _, nv := range s.Numvars {
+					w("    %s = %d\n", nv.Key, nv.Val)
+				}
+				w("  }\n")
+			}
 		}
 		w("}\n")
 	}
@@ -412,7 +456,7 @@ func renderHCLLocals(d scDesc) string {
 	l := &hclLocals{}
 	w := func(f string, a ...interface{}) { fmt.Fprintf(&b, f, a...) }
 	q := hclQuote
-	k := 0
+	k := scSeed() // which convenience is used where rotates with VERIF_SEED
 	str := func(a string) string { k++; return l.strExpr(a, k) }
 	for _, s := range d.Sources {
 		w("variable_source %s %s {\n", q(s.Name), q(s.Type))
@@ -429,7 +473,15 @@ func renderHCLLocals(d scDesc) string {
 			w("  delimiter = %s\n", str(s.Delim[0]))
 		}
 		if len(s.Variables) == 1 {
-			w("  variables = %s\n", l.mapExpr(s.Variables[0], "  "))
+			if len(s.Numvars) == 0 {
+				w("  variables = %s\n", l.mapExpr(s.Variables[0], "  "))
+			} else {
+				w("  variables = merge(%s, {\n", l.mapExpr(s.Variables[0], "  "))
+				for _, nv := range s.Numvars {
+					w("    %s = %d\n", nv.Key, nv.Val)
+				}
+				w("  })\n")
+			}
 		}
 		w("}\n")
 	}
@@ -662,7 +714,14 @@ func renderYAML(d scDesc) string {
 			w("    delimiter: %s\n", q(s.Delim[0]))
 		}
 		if len(s.Variables) == 1 {
-			yamlMap(&b, "variables", s.Variables[0], "    ")
+			if len(s.Numvars) > 0 && len(s.Variables[0]) == 0 {
+				w("    variables:\n")
+			} else {
+				yamlMap(&b, "variables", s.Variables[0], "    ")
+			}
+			for _, nv := range s.Numvars {
+				w("      %s: %d\n", nv.Key, nv.Val)
+			}
 		}
 	}
 	if len(d.Requests) > 0 {
@@ -810,8 +869,8 @@ func renderYAMLAnchors(d scDesc) string {
 	l := &yamlLocals{}
 	w := func(f string, a ...interface{}) { fmt.Fprintf(&b, f, a...) }
 	p := yamlPlain
-	k := 0
-	// every third string value goes through an anchor in locals, the others are written in place
+	k := scSeed()
+	// every third string value goes through an anchor in locals (which ones rotates with VERIF_SEED)
 	val := func(a string, ind string) string {
 		k++
 		if k%3 == 0 {
@@ -837,7 +896,17 @@ func renderYAMLAnchors(d scDesc) string {
 			w("    delimiter: %s\n", val(s.Delim[0], "    "))
 		}
 		if len(s.Variables) == 1 {
-			l.mapA(&b, "variables", s.Variables[0], "    ")
+			if len(s.Numvars) > 0 && len(s.Variables[0]) < 2 {
+				w("    variables:\n")
+				for _, p := range s.Variables[0] {
+					w("      %s: %s\n", yamlSQ(p[0]), yamlSQ(p[1]))
+				}
+			} else {
+				l.mapA(&b, "variables", s.Variables[0], "    ")
+			}
+			for _, nv := range s.Numvars {
+				w("      %s: %d\n", nv.Key, nv.Val)
+			}
 		}
 	}
 	if len(d.Requests) > 0 {
@@ -931,4 +1000,143 @@ func renderYAMLAnchors(d scDesc) string {
 		head = "locals:\n" + strings.Join(l.lines, "\n") + "\n"
 	}
 	return head + b.String()
+}
+
+// ------------------------------------------------------------------ JSON (documented as a supported format)
+
+// renderJSON: the description as a JSON document with the YAML key names (docs: "Supports file extensions hcl, yaml,
+// json").  Built as a generic value and marshalled by encoding/json, so the string syntax is right by construction.
+func renderJSON(d scDesc) string {
+	strs := func(xs []string) []string {
+		out := make([]string, len(xs))
+		for i, x := range xs {
+			out[i] = lit(x)
+		}
+		return out
+	}
+	obj := func(ps dPairs) map[string]interface{} {
+		out := map[string]interface{}{}
+		for _, p := range ps {
+			out[lit(p[0])] = lit(p[1])
+		}
+		return out
+	}
+	root := map[string]interface{}{}
+	var srcs, reqs, calls, scs []interface{}
+	for _, s := range d.Sources {
+		m := map[string]interface{}{"type": s.Type, "name": s.Name}
+		if len(s.File) == 1 {
+			m["file"] = lit(s.File[0])
+		}
+		if len(s.Fields) == 1 {
+			m["fields"] = strs(s.Fields[0])
+		}
+		if len(s.Ifl) == 1 {
+			m["ignore_first_line"] = s.Ifl[0]
+		}
+		if len(s.Delim) == 1 {
+			m["delimiter"] = lit(s.Delim[0])
+		}
+		if len(s.Variables) == 1 {
+			vars := obj(s.Variables[0])
+			for _, nv := range s.Numvars {
+				vars[nv.Key] = nv.Val
+			}
+			m["variables"] = vars
+		}
+		srcs = append(srcs, m)
+	}
+	posts := func(ps []dPost) []interface{} {
+		var out []interface{}
+		for _, p := range ps {
+			m := map[string]interface{}{"type": p.Type}
+			if len(p.Mapping) == 1 {
+				m["mapping"] = obj(p.Mapping[0])
+			}
+			if len(p.Headers) == 1 {
+				m["headers"] = obj(p.Headers[0])
+			}
+			if len(p.Body) == 1 {
+				m["body"] = strs(p.Body[0])
+			}
+			if len(p.Payload) == 1 {
+				m["payload"] = strs(p.Payload[0])
+			}
+			if len(p.Status) == 1 {
+				m["status_code"] = p.Status[0]
+			}
+			if len(p.Size) == 1 {
+				m["size"] = map[string]interface{}{"val": p.Size[0].Val, "op": lit(p.Size[0].Op)}
+			}
+			out = append(out, m)
+		}
+		return out
+	}
+	for _, r := range d.Requests {
+		m := map[string]interface{}{"name": r.Name, "method": lit(r.Method), "uri": lit(r.URI)}
+		if len(r.Headers) == 1 {
+			m["headers"] = obj(r.Headers[0])
+		}
+		if len(r.Tag) == 1 {
+			m["tag"] = lit(r.Tag[0])
+		}
+		if len(r.Body) == 1 {
+			m["body"] = lit(r.Body[0])
+		}
+		if len(r.Pre) == 1 {
+			m["preprocessor"] = map[string]interface{}{"mapping": obj(r.Pre[0])}
+		}
+		if len(r.Templater) == 1 {
+			m["templater"] = map[string]interface{}{"type": r.Templater[0]}
+		}
+		if len(r.Posts) > 0 {
+			m["postprocessors"] = posts(r.Posts)
+		}
+		reqs = append(reqs, m)
+	}
+	for _, c := range d.Calls {
+		m := map[string]interface{}{"name": c.Name, "call": lit(c.Call), "payload": lit(c.Payload)}
+		if len(c.Tag) == 1 {
+			m["tag"] = lit(c.Tag[0])
+		}
+		if len(c.Metadata) == 1 {
+			m["metadata"] = obj(c.Metadata[0])
+		}
+		if len(c.Pres) > 0 {
+			var pres []interface{}
+			for _, p := range c.Pres {
+				pres = append(pres, map[string]interface{}{"type": p.Type, "mapping": obj(p.Mapping)})
+			}
+			m["preprocessors"] = pres
+		}
+		if len(c.Posts) > 0 {
+			m["postprocessors"] = posts(c.Posts)
+		}
+		calls = append(calls, m)
+	}
+	for _, sc := range d.Scenarios {
+		m := map[string]interface{}{"name": sc.Name, "requests": stepTexts(sc)}
+		if len(sc.Weight) == 1 {
+			m["weight"] = sc.Weight[0]
+		}
+		if len(sc.Mwt) == 1 {
+			m["min_waiting_time"] = sc.Mwt[0]
+		}
+		scs = append(scs, m)
+	}
+	if srcs != nil {
+		root["variable_sources"] = srcs
+	}
+	if reqs != nil {
+		root["requests"] = reqs
+	}
+	if calls != nil {
+		root["calls"] = calls
+	}
+	root["scenarios"] = scs
+	b, err := json.MarshalIndent(root, "", "  ")
+	if err != nil {
+		panic(err)
+	}
+	return string(b) + "\n"
 }
